@@ -33,12 +33,13 @@ Qed.
    corpus/C20/slave-polling-and-listening.json; repair: fixes/C20-slave-listening-and-polling.diff *)
 From QT Require Import C20.AcceptThm.
 Lemma C20_slave_polling_and_listening_backup_refused :
-  exists s1 s2, (forall e, In e (sl_devices s1) -> slave_json e = e)
+  exists reach s1 s2, (forall e, In e (sl_devices s1) -> strip_slave (slave_result reach e) = strip_slave e)
     /\ endpoints_distinct (sl_devices s1) = true
-    /\ snd (put_slave_devices (get_slave_devices s1) s2) = Some (0, "listening-and-polling")
-    /\ sl_devices (fst (put_slave_devices (get_slave_devices s1) s2)) = [].            (* and no device is left *)
+    /\ snd (put_slave_devices reach (get_slave_devices s1) s2) = Some (0, "listening-and-polling")
+    /\ sl_devices (fst (put_slave_devices reach (get_slave_devices s1) s2)) = [].            (* and no device is left *)
 Proof.
-  exists {| sl_devices := [slave_json [("name", JStr "s1"); ("scheme", JStr "http"); ("host", JStr "10.0.0.1"); ("port", JNum 320);
+  exists (fun _ => None),
+         {| sl_devices := [slave_json [("name", JStr "s1"); ("scheme", JStr "http"); ("host", JStr "10.0.0.1"); ("port", JNum 320);
                                        ("path", JStr "/"); ("admin_password_hash", JStr empty_hash); ("poll_interval", JNum 40);
                                        ("listen_enabled", JBool true); ("last_sync", JNum (-4)); ("attrs", JObj [])]];
             sl_updating := true; sl_events := true |},
